@@ -145,9 +145,79 @@ theorem contains_panic_false : ∀ (ops : List Op) (ss : Session), (∀ r ∈ (r
         subst hp
         exact hnp _ (by simp) rfl
 
+/-- the MAC `finish` returns: none for an unsigned TSIG, what the signing function gave otherwise -/
+theorem finishTsig_mac {macFn : Tsig → List UInt8 → List UInt8} {ts : Tsig} {s s' : State} {len : Nat}
+    {mac : Option (List UInt8)} (h : finishTsig macFn (some ts) s = (.ok (len, mac), s')) :
+    (isUnsigned ts.mode = true → mac = none) ∧
+    (isUnsigned ts.mode = false → ∃ msg, mac = some (macFn ts msg)) := by
+  unfold finishTsig at h
+  simp only [M.bind_apply, M.gets_apply] at h
+  by_cases hc : s.cursor > s.octets.size
+  · rw [if_pos hc] at h; cases h
+  rw [if_neg hc] at h
+  simp only [] at h
+  cases hmode : ts.mode with
+  | request a k =>
+    rw [hmode] at h
+    simp only [] at h
+    obtain ⟨e1, _, _⟩ := tsigTail_inv (ts := ts) (mc := some (macFn ts (s.octets.extract 0 s.cursor).toList))
+      (by rw [hmode]; exact h)
+    exact ⟨(fun hx => by cases hx), fun _ => ⟨_, e1⟩⟩
+  | response a m k =>
+    rw [hmode] at h
+    simp only [] at h
+    obtain ⟨e1, _, _⟩ := tsigTail_inv (ts := ts) (mc := some (macFn ts (s.octets.extract 0 s.cursor).toList))
+      (by rw [hmode]; exact h)
+    exact ⟨(fun hx => by cases hx), fun _ => ⟨_, e1⟩⟩
+  | subsequent a m k =>
+    rw [hmode] at h
+    simp only [] at h
+    obtain ⟨e1, _, _⟩ := tsigTail_inv (ts := ts) (mc := some (macFn ts (s.octets.extract 0 s.cursor).toList))
+      (by rw [hmode]; exact h)
+    exact ⟨(fun hx => by cases hx), fun _ => ⟨_, e1⟩⟩
+  | unsigned n =>
+    rw [hmode] at h
+    simp only [] at h
+    obtain ⟨e1, _, _⟩ := tsigTail_inv (ts := ts) (mc := none) (by rw [hmode]; exact h)
+    exact ⟨fun _ => e1, (fun hx => by cases hx)⟩
+
+theorem finish_mac_shape (macFn : Tsig → List UInt8 → List UInt8) (s : State) (ts : Tsig) (hts : s.tsig = some ts)
+    (m : Bytes) (mac : Option (List UInt8)) (hf : finish s macFn = .ok (m, mac)) :
+    (isUnsigned ts.mode = true → mac = none) ∧
+    (isUnsigned ts.mode = false → ∃ msg, mac = some (macFn ts msg)) := by
+  unfold finish at hf
+  cases hw : finishWithMac macFn s with
+  | mk r sF =>
+    rw [hw] at hf
+    cases r with
+    | err e => cases hf
+    | panic => cases hf
+    | ok p =>
+      obtain ⟨len, mc⟩ := p
+      simp only [Out.ok.injEq, Prod.mk.injEq] at hf
+      obtain ⟨_, rfl⟩ := hf
+      unfold finishWithMac at hw
+      simp only [M.bind_apply, M.gets_apply, hts] at hw
+      cases h1 : finishCounts s.qdcount s.ancount s.nscount s.arcount s with
+      | mk r1 s1 =>
+        rw [h1] at hw
+        cases r1 with
+        | err e => cases hw
+        | panic => cases hw
+        | ok u1 =>
+          simp only at hw
+          cases h2 : finishOpt s.edns s1 with
+          | mk r2 s2 =>
+            rw [h2] at hw
+            cases r2 with
+            | err e => cases hw
+            | panic => cases hw
+            | ok u2 => exact finishTsig_mac hw
+
 /-- **`C12_full` for sessions of one segment, up to the pointer audit.** For every buffer, limit
     (at most 65535), initial mode and every sequence of typed calls without `clear_rrs` that respects
-    the hint contract, with a MAC of the size the specification expects: the session observed by
+    the hint contract, with a MAC of the size the specification expects (`hsz`: for a signing TSIG mode the MAC given
+    has the algorithm's output size): the session observed by
     `Driver.runModel` (status strings, what the getters report, finished message, MAC) passes
     `Spec.Message.checkSession` as soon as the pointer audit `auditPointers` of the decoded message
     passes — every other check of the executable specification (no panic, the message decodes, the
@@ -158,8 +228,8 @@ theorem checkSession_one_segment (buf : Bytes) (limit : Nat) (mode : CMode) (s :
     (hr : Respects { w := { s with mode := mode } } ops) (ht : ∀ op ∈ ops, ApiTyped op) (hlim : limit ≤ 65535)
     (hv : ∀ v, Op.setLimit v ∈ ops → v ≤ 65535) (hmac : MacLenOK (fun _ _ => mac.getD []))
     (hno : ∀ op ∈ ops, op ≠ .clearRrs)
-    (hml : ∀ m mc ts, finish (run { w := { s with mode := mode } } ops).1.w (fun _ _ => mac.getD []) = .ok (m, mc) →
-      (run { w := { s with mode := mode } } ops).1.w.tsig = some ts → (mc.getD []).length = (toATsig ts).macLen) :
+    (hsz : ∀ ts, (run { w := { s with mode := mode } } ops).1.w.tsig = some ts → isUnsigned ts.mode = false →
+      (mac.getD []).length = (toATsig ts).macLen) :
     ∃ (m : Bytes) (d : Message.Decoded) (aF : Message.AState),
       (Driver.runModel { w := { s with mode := mode } } ops mac true).msg = some m ∧
       Message.specDecodeMsg m = some d ∧
@@ -170,6 +240,22 @@ theorem checkSession_one_segment (buf : Bytes) (limit : Nat) (mode : CMode) (s :
           (Driver.runModel { w := { s with mode := mode } } ops mac true).mac = "ok") := by
   have hI0 : I { s with mode := mode } := (safe_setMode mode s (new_i buf limit s hnew)).2
   obtain ⟨hnp, hIR⟩ := run_I { w := { s with mode := mode } } ops hI0 hr
+  have hml : ∀ m mc ts, finish (run { w := { s with mode := mode } } ops).1.w (fun _ _ => mac.getD []) = .ok (m, mc) →
+      (run { w := { s with mode := mode } } ops).1.w.tsig = some ts → (mc.getD []).length = (toATsig ts).macLen := by
+    intro m mc ts hf hts
+    obtain ⟨h1, h2⟩ := finish_mac_shape _ _ ts hts m mc hf
+    cases hu : isUnsigned ts.mode with
+    | true =>
+      rw [h1 hu]
+      cases hm : ts.mode with
+      | unsigned n => simp [toATsig, hm, Message.ATsig.macLen]
+      | request a k => rw [hm] at hu; cases hu
+      | response a x k => rw [hm] at hu; cases hu
+      | subsequent a x k => rw [hm] at hu; cases hu
+    | false =>
+      obtain ⟨msg, hmc⟩ := h2 hu
+      rw [hmc]
+      exact hsz ts hts hu
   obtain ⟨m0, mc0, hf0⟩ := finish_ok (fun _ _ => mac.getD []) hmac _ hIR
   have hrun : Driver.runModel { w := { s with mode := mode } } ops mac true =
       ⟨obs { w := { s with mode := mode } } ops ++ ["ok"], some m0, mc0, []⟩ := by
